@@ -13,7 +13,7 @@
    strict weak order (true for binary64 off NaN). *)
 Require Import Base.Prelude C05.Sweep C05.Tree C05.ProofsTreeBase C05.ProofsTreeRot
         C05.ProofsTreeInv C05.ProofsTreeFix C05.ProofsTreeIns C05.ProofsTreeQry C05.ProofsTreeStruct
-        C05.ProofsTreeDel C05.ProofsTreeWeak C05.TreeBounded.
+        C05.ProofsTreeDel C05.ProofsTreeWeak C05.ProofsTreeTotal C05.TreeBounded.
 Require Import Permutation.
 Open Scope Z_scope.
 
@@ -266,6 +266,21 @@ Proof.
 Qed.
 Print Assumptions C05_tree_query_refines_weak.
 
+(* (T12) fuel sufficiency of the query: on any well-formed tree, with fuel at least the
+   number of nodes the query returns (it never runs out of fuel; it has no
+   out-of-bounds guard).  Together with T6 / T11: total correctness of the query. *)
+Theorem C05_tree_query_total :
+  forall (A K G N : Type) (klt : K -> K -> bool) (ggt : G -> G -> bool) (nmin : N -> G)
+         (ncontrib : N -> A -> option G) (smallest : G)
+         fuel (t : @tree K G N) l k a g,
+    SGood (th t) (troot t) l -> (length l <= fuel)%nat ->
+    t_query klt ggt nmin ncontrib smallest fuel t k a g <> None.
+Proof.
+  intros A K G N klt ggt nmin ncontrib smallest fuel t l k a g.
+  exact (t_query_total klt ggt nmin ncontrib smallest fuel t l k a g).
+Qed.
+Print Assumptions C05_tree_query_total.
+
 (* (T4) BOUNDED (vm_compute): on the exact integer instance (keys, gradients in Z, a
    node's payload = its constant gradient, SMALLEST_GRAD = -100, 64 rows), for EVERY
    sequence of at most 6 insert / delete operations with keys in 1..5 and gradients in
@@ -285,10 +300,13 @@ Theorem C05_bounded_tree_refines_small :
 Proof. exact bounded_refines. Qed.
 Print Assumptions C05_bounded_tree_refines_small.
 
-(* ---- UNCLAIMED: the full refinement statement for the concrete tree: the bound of
-   (T4) removed (any number of operations, any keys above the dummy root's, any
-   gradients above SMALLEST_GRAD, enough rows).  Covered by (T4) on its domain and by
-   the correspondence runs; the proved parts are (T1)-(T3). *)
+(* ---- UNCLAIMED, and FALSE in spirit for the code as written: the full refinement
+   statement for the concrete tree, i.e. the bound of (T4) removed (any number of
+   operations, any keys above the dummy root's, any gradients above SMALLEST_GRAD,
+   enough rows).  C05_tree_refines_refuted below exhibits 45 updates after which the
+   concrete tree hides a key the abstract structure sees (a genuine defect of
+   _delete_from_tree, recorded in known_findings.d/C05.json); this Prop only runs the
+   14 queries of bqueries, which do not include that one. *)
 Definition tree_refines_status_full_statement : Prop :=
   forall (n : Z) (ops : list zop),
     Z.of_nat (length ops) + 3 <= n ->
@@ -330,6 +348,35 @@ Proof.
   - intros a b c H1 H2. unfold gle, zgt' in *. lia.
 Qed.
 
+(* the premises of T5 / T6 / T8 / T12 are satisfiable on ex_state (dummy root + key 1) and
+   the three operations return: insert of key 2 at a fresh row, the query for key 1, the
+   deletion of key 1 *)
+Example C05_tree_ops_nonvacuous :
+  KSorted Z.ltb ex_heap [0; 2] /\
+  SGood ex_heap (troot (c_tree ex_state)) [0; 2] /\
+  has_key Z.ltb 2 (tabs ex_heap [0; 2]) = false /\
+  (exists t', t_insert Z.ltb zgt' (fun n : Z => n) zsmall 8 (c_tree ex_state) 3 2 0 = Some t') /\
+  (exists m, t_query Z.ltb zgt' (fun n : Z => n) zcon zsmall 8 (c_tree ex_state) 1 tt 0 = Some (QVal m)) /\
+  (exists t' d, t_delete Z.ltb zgt' Z.eqb (fun n : Z => n) 8 (c_tree ex_state) 1 = Some (DOk t' d)) /\
+  (forall a b c, Z.ltb a b = true -> Z.ltb b c = true -> Z.ltb a c = true) /\
+  (forall a, Z.ltb a a = false) /\
+  (forall a b c, Z.ltb a c = true -> Z.ltb a b = true \/ Z.ltb b c = true).
+Proof.
+  split.
+  { unfold KSorted. repeat constructor. }
+  split.
+  { exists (Nd L 0 (Nd L 2 L)). split; [|reflexivity]. split.
+    - simpl. repeat split; try reflexivity; try discriminate.
+    - simpl. repeat constructor; simpl; intuition discriminate. }
+  split; [reflexivity|].
+  split; [eexists; vm_compute; reflexivity|].
+  split; [eexists; vm_compute; reflexivity|].
+  split; [eexists; eexists; vm_compute; reflexivity|].
+  split; [intros a b c H1 H2; apply Z.ltb_lt in H1, H2; apply Z.ltb_lt; lia|].
+  split; [intros a; apply Z.ltb_irrefl|].
+  intros a b c H. apply Z.ltb_lt in H. destruct (Z.ltb_spec a b); [now left|right; apply Z.ltb_lt; lia].
+Qed.
+
 (* ---- REFUTED for the code as written: "_delete_from_tree re-establishes cached
    maximum = subtree maximum".  After insert 6 (gradient 1), 1 (0), 5 (0), 3 (0),
    2 (1), delete 2, delete 5 the root (row 3, key 1) caches the maximum 0 although
@@ -356,6 +403,39 @@ Proof.
   pose proof (Good_root_upper zgt' (fun n : Z => n) zsmall _ _ _ 4 HG H4) as X.
   vm_compute in X. discriminate.
 Qed.
+
+(* ---- REFUTED for the code as written: "the concrete tree refines the abstract status
+   structure for every operation sequence".  After these 45 inserts / deletes (keys
+   1..16, gradients 0..4) the abstraction still agrees (same live set), but the query for
+   key 16 at gradient 2 returns the maximum 3 (hidden) although no nearer live node has
+   a gradient above 2 (visible_q = true): a cached maximum 3 has survived the deletion
+   of every node it could come from — the ONE-SIDED invariant WGood fails too.  Same
+   input, same answer on the jitted code (harness/props/c05.py STALE_MAX_SEQ). *)
+Definition refuting_ops : list zop :=
+  [ZI 2 2; ZI 8 4; ZI 12 4; ZI 13 2; ZI 9 3; ZD 12; ZI 5 1; ZI 10 2; ZD 2; ZI 12 1; ZD 8; ZI 6 3; ZI 8 2; ZD 9;
+   ZI 9 1; ZD 10; ZD 13; ZD 6; ZI 16 3; ZD 9; ZI 9 2; ZD 12; ZI 13 2; ZD 8; ZI 7 4; ZI 6 3; ZI 10 1; ZI 8 1; ZD 6;
+   ZD 10; ZD 5; ZI 11 3; ZI 15 0; ZI 12 2; ZD 9; ZI 3 3; ZD 7; ZI 5 4; ZD 3; ZI 14 1; ZD 13; ZI 13 3; ZD 11; ZD 13;
+   ZD 5].
+
+Fixpoint run_both (cs : @cstate Z Z Z) (st : zstatus) (ops : list zop) : option (@cstate Z Z Z * zstatus) :=
+  match ops with
+  | [] => Some (cs, st)
+  | o :: r => match both_step cs st o with
+              | (true, Some (cs', st')) => run_both cs' st' r
+              | _ => None
+              end
+  end.
+
+Example C05_tree_refines_refuted :
+  match run_both zc_init [] refuting_ops with
+  | Some (cs, st) =>
+    c_abs cs = (0, zsmall) :: sort_status st /\
+    sort_status st = [(8, 1); (12, 2); (14, 1); (15, 0); (16, 3)] /\
+    fst (zc_step cs (CQ 16 tt 2)) = RQry 3 /\
+    visible_q Z.ltb zgt' (fun n => n) zcon st 16 tt 2 = true
+  | None => False
+  end.
+Proof. vm_compute. repeat split; reflexivity. Qed.
 
 (* the bounded run is not trivially true: it inspects states with five live nodes *)
 Example C05_bounded_nonvacuous :
